@@ -1,5 +1,5 @@
 SPECIFICATION Spec
 CONSTANTS Callers = {1, 2, 3}  MaxGen = 3  MaxCalls = 5  MaxKill = 2  ReconnectWhenNil = TRUE  ClosedCheckLocked = TRUE
-  CloseDropped = TRUE  CheckClosedFlag = TRUE  LimitIsRecoverable = TRUE  GenHist = FALSE
+  DropOnlyOwn = TRUE  CloseDropped = TRUE  CheckClosedFlag = TRUE  LimitIsRecoverable = TRUE  GenHist = FALSE
 INVARIANT NoViolation
 CHECK_DEADLOCK FALSE
